@@ -25,6 +25,41 @@ pub mod anyhow {
         { unimplemented!() }
     }
 }
-/// what `format!(..)` becomes under T9: some string
+/// what `format!(..)` becomes under T9 when its literal is not understood: some string
 #[verifier::external_body]
 pub fn __fmt_opaque() -> String { unimplemented!() }
+
+/// the text Display prints for a value, as far as it is modelled (uninterpreted per type)
+pub trait DisplayText {
+    spec fn dt(&self) -> Seq<char>;
+}
+pub uninterp spec fn dec_text(v: usize) -> Seq<char>;
+pub uninterp spec fn char_text(c: char) -> Seq<char>;
+impl DisplayText for usize { open spec fn dt(&self) -> Seq<char> { dec_text(*self) } }
+impl DisplayText for char { open spec fn dt(&self) -> Seq<char> { char_text(*self) } }
+impl DisplayText for String { open spec fn dt(&self) -> Seq<char> { self@ } }
+impl<'a> DisplayText for &'a str { open spec fn dt(&self) -> Seq<char> { self@ } }
+impl<'a, T: DisplayText> DisplayText for &'a T { open spec fn dt(&self) -> Seq<char> { (**self).dt() } }
+
+/// what format! produces: an uninterpreted function of the literal and of the display texts of its arguments
+pub uninterp spec fn fmt_text(lit: Seq<char>, args: Seq<Seq<char>>) -> Seq<char>;
+
+#[verifier::external_body]
+pub fn __fmt0(l: &str) -> (r: String) ensures r@ == fmt_text(l@, Seq::empty()) { unimplemented!() }
+#[verifier::external_body]
+pub fn __fmt1<A: DisplayText>(l: &str, a: &A) -> (r: String) ensures r@ == fmt_text(l@, seq![a.dt()]) { unimplemented!() }
+#[verifier::external_body]
+pub fn __fmt2<A: DisplayText, B: DisplayText>(l: &str, a: &A, b: &B) -> (r: String)
+    ensures r@ == fmt_text(l@, seq![a.dt(), b.dt()]) { unimplemented!() }
+#[verifier::external_body]
+pub fn __fmt3<A: DisplayText, B: DisplayText, C: DisplayText>(l: &str, a: &A, b: &B, c: &C) -> (r: String)
+    ensures r@ == fmt_text(l@, seq![a.dt(), b.dt(), c.dt()]) { unimplemented!() }
+#[verifier::external_body]
+pub fn __fmt4<A: DisplayText, B: DisplayText, C: DisplayText, D: DisplayText>(l: &str, a: &A, b: &B, c: &C, d: &D) -> (r: String)
+    ensures r@ == fmt_text(l@, seq![a.dt(), b.dt(), c.dt(), d.dt()]) { unimplemented!() }
+#[verifier::external_body]
+pub fn __fmt5<A: DisplayText, B: DisplayText, C: DisplayText, D: DisplayText, E: DisplayText>(l: &str, a: &A, b: &B, c: &C, d: &D, e: &E) -> (r: String)
+    ensures r@ == fmt_text(l@, seq![a.dt(), b.dt(), c.dt(), d.dt(), e.dt()]) { unimplemented!() }
+#[verifier::external_body]
+pub fn __fmt6<A: DisplayText, B: DisplayText, C: DisplayText, D: DisplayText, E: DisplayText, F: DisplayText>(l: &str, a: &A, b: &B, c: &C, d: &D, e: &E, f: &F) -> (r: String)
+    ensures r@ == fmt_text(l@, seq![a.dt(), b.dt(), c.dt(), d.dt(), e.dt(), f.dt()]) { unimplemented!() }
